@@ -109,7 +109,7 @@ def depth(e):
     return 0 if e[0] == "leaf" else 1 + max(depth(x) for x in e[1:] if isinstance(x, list) and x and isinstance(x[0], str))
 
 
-SCALARS = [(0, 1), (1, 1), (-1, 1), (2, 1), (-3, 1), (1, 2), (-1, 4), (8, 1), (5, 1)]
+SCALARS = [(0, 1), (1, 1), (-1, 1), (2, 1), (-3, 1), (1, 2), (-1, 4), (8, 1), (5, 1), (1, 10), (1, 3)]
 SKINDS = ["int", "float", "np64", "npint", "torch0d"]
 
 
@@ -118,7 +118,7 @@ class Prop:
     COQ_HEADER = "From TN Require Import Harness.H_C02.\nFrom Coq Require Import QArith.\nOpen Scope Z_scope.\n"
     CHECK_FN = "check_any"
     RULE = ("enumerated format lattice ({TT,CP}x{U,no U} per mode) on both operands for N=1,2, seeded for N=3,4; "
-            "broadcast patterns; scalars {0,1,-1,2,-3,1/2,-1/4,8,5} of 5 Python/NumPy/torch kinds on either side; "
+            "broadcast patterns; scalars {0,1,-1,2,-3,1/2,-1/4,8,5,1/10,1/3} of 5 Python/NumPy/torch kinds on either side; "
             "expression trees of depth<=3; both default dtypes. A case is non-trivial when the result is not an error "
             "and not all-zero; distinct = distinct (formats of leaves, tree shape, scalar kind/side, default dtype).")
     TRUSTED = ["correspondence runner harness/props/c02.py + Harness/H_C02.v (dense comparison, exact over Z, 1e-9 over Q)",
